@@ -48,6 +48,24 @@ def _argv_env(env, kind, args):
     return [e2e.REAL_GIT] + args, e
 
 
+def _drain(f, secs):
+    """what is readable within `secs` (a process that outlived its parent may keep the write end open for ever)"""
+    os.set_blocking(f.fileno(), False)
+    out, t1 = b"", time.time()
+    while time.time() - t1 < secs:
+        try:
+            chunk = f.read()
+        except (BlockingIOError, OSError):
+            chunk = None
+        if chunk == b"":
+            break
+        if chunk:
+            out += chunk
+        else:
+            time.sleep(0.02)
+    return out
+
+
 def run_sigpipe(env, repo, kind, case):
     argv, e = _argv_env(env, kind, case["argv"])
     master = slave = None
@@ -66,7 +84,7 @@ def run_sigpipe(env, repo, kind, case):
         except subprocess.TimeoutExpired:
             p.kill()
             rc = 999
-        err = p.stderr.read().decode("utf-8", "replace")
+        err = _drain(p.stderr, 5).decode("utf-8", "replace")
         p.stderr.close()
     finally:
         for fd in (master, slave):
@@ -128,7 +146,27 @@ def run_kill(env, repo, kind, case):
             p.kill()
             p.wait()
             rc = 999
-        err = p.stderr.read().decode("utf-8", "replace")
+        # nothing of this case may outlive it: when the wrapper dies without taking its child along (a regression in
+        # signal forwarding, or SIGKILL to the wrapper) the orphaned git still blocks on stdin and holds the pipes open
+        survivors = []
+        for pid in ([child] if kind == "proxy" and child else []):
+            try:
+                os.kill(pid, 0)
+                survivors.append(pid)
+                os.kill(pid, signal.SIGKILL)
+            except OSError:
+                pass
+        try:
+            os.killpg(p.pid, signal.SIGKILL)
+        except OSError:
+            pass
+        try:
+            p.stdin.close()
+        except Exception:
+            pass
+        err = _drain(p.stderr, 5).decode("utf-8", "replace")
+        if survivors:
+            err += f"\n[harness] child git {survivors} outlived the wrapper"
     finally:
         for f in (p.stdin, p.stdout, p.stderr):
             try:
